@@ -5,7 +5,10 @@ Every observation is evaluated
   (F) as the very first use of the library in a fresh interpreter (one interpreter per observation),
   (W) in one warmed-up interpreter (every lazy data group touched, every observation evaluated in list order, then all again),
   (R) in another warmed-up interpreter in REVERSE list order,
-and the four values (F, W first pass, W second pass, R) must be identical texts (floats are compared by repr).
+  (E) in an interpreter in which a fixed list of REJECTED calls was made first (FAULTS: unknown symbols on a private table, malformed
+      strings, unusable argument types, unknown residues, untabulated ions - each must raise, and whatever it raises is discarded),
+and the five values (F, W first pass, W second pass, R, E) must be identical texts (floats are compared by repr).  (E) is the
+stand-in for failure atomicity: a call that is rejected part-way must leave nothing behind that a later valid call can see.
 
 What this decides that a per-call contract cannot: order of first use (lazy registration on the wrong class, a loader that is
 triggered by the wrong attribute), state left behind by an earlier observation (caches keyed too coarsely, aliasing of returned
@@ -66,6 +69,7 @@ def S(v):
 def atoms(f):
     return S(dict(f.atoms))
 
+FAULT_OBJ = {}
 _n = [0]
 def private(*inits):
     """a fresh private table on which the given modules are initialised, in that order"""
@@ -92,6 +96,34 @@ for el in pt.elements:
     for nm in ("mass", "density", "neutron", "xray", "K_alpha", "magnetic_ff", "covalent_radius", "crystal_structure", "neutron_activation"):
         getattr(el, nm, None)
 formula("H2O@1").density; pt.neutron_sld("H2O@1"); pt.xray_sld("H2O@1", energy=8.0)
+'''
+
+FAULTS = r'''
+from decimal import Decimal
+from fractions import Fraction
+def _rejected(code):
+    try:
+        exec(code, globals())
+    except BaseException:
+        pass
+_Tq = private(mass, density)
+_Tq.Fe._mass = 60.0; _Tq.H._mass = 50.0; _Tq.H._density = 9.0; _Tq.O._mass = 2.0
+FAULT_OBJ["water"] = formula("H2O@1")
+FAULT_OBJ["silica"] = formula("SiO2@2.2")
+for _c in ["formula('Xx2O', table=_Tq)", "formula('H2O)', table=_Tq)", "formula('Fe2Xx3', table=_Tq)", "formula('Fe2Xx3')", "formula('Na{+}Cl{-}2)')",
+           "formula('2g Si // 1mL C6H6')", "formula('5wt% Si // Xx')", "formula('1g H2O@1 // 3g Qq')",
+           "formula([(1, pt.C), (Decimal('0.5'), pt.H), (0.5, pt.H)]).atoms", "formula([(0.5, [(Decimal(2), pt.H)]), (3, [(1, pt.O)])]).atoms",
+           "formula([(1, pt.C), (0.5, pt.H), (0.5, pt.H), (1, [1, 2])]).atoms",
+           "pt.neutron_scattering(FAULT_OBJ['water'], density=2.0, wavelength='4.75')", "pt.neutron_sld(FAULT_OBJ['water'], natural_density=3.0, wavelength='4.75')",
+           "pt.xray_sld(FAULT_OBJ['silica'], density=5.0, energy='x')", "pt.xray_sld(FAULT_OBJ['silica'], density=5.0)", "xsf.index_of_refraction(FAULT_OBJ['silica'], density=5.0, energy=[8.0, 'x'])",
+           "pt.neutron_sld('C2H6O@0.789', wavelength=Decimal('4.75'))", "nsf.D2O_match('C2H6O@0.789', wavelength=Decimal('4.75'))",
+           "nsf.D2O_sld('C3H4H[1]3NO2@1.29', wavelength=Decimal('4.75'))",
+           "fasta.Sequence('rejected', 'ACD?E')", "formula('aa:ACD?E')", "formula('dna:ACGU?')",
+           "cromermann.fxrayatq('Fe', 0.0, 4)", "pt.Fe.ion[4].xray.f0(0.0)", "cromermann.fxrayatstol('Xx', 0.0)",
+           "pt.Fe.ion[9]", "pt.Fe[999]", "pt.elements.isotope('0-Fe')", "pt.elements.symbol('Xx')",
+           "nsf.neutron_composite_sld([formula('H2O@1'), formula('D2O@1.11')], wavelength=[4.0, 5.0])([0.5, 0.5])",
+           "act.Sample('Co30Fe70', 1.0).calculate_activation(act.ActivationEnvironment(1e13), abundance=lambda iso: {}[iso])"]:
+    _rejected(_c)
 '''
 
 # (tags, name, program ending in `result = ...`)
@@ -195,6 +227,38 @@ OBSERVATIONS = [
     (("C14", "C10"), "Sample from a private-table formula with enriched Li",
      "T = private(mass, density, act); T.Li[6]._abundance = 95.0; T.Li[7]._abundance = 5.0; f = formula('LiF', table=T); s = act.Sample(f, 1.0); "
      "result = [all(core.change_table(x, T) is x for x in s.formula.atoms), atoms(s.formula)]; check = result[0]"),
+    # ---- values that must not depend on calls that were REJECTED earlier (history E; the objects in FAULT_OBJ were arguments of rejected calls)
+    (("C01", "C10", "C12", "C13"), "public parse after anything", "f = formula('Fe2O3'); g = formula('D2O@1n'); h = formula(str(formula('NaCl'))); result = [f.mass, atoms(f), g.density, g.mass, atoms(h), [str(a.table is pt.Fe.table) for a in f.atoms]]"),
+    (("C01", "C10"), "public ions after anything", "f = formula('Na{+}Cl{-}'); result = [atoms(f), f.charge, f.mass]"),
+    (("C02", "C19"), "counts of an already seen structure", "f = formula([(1, pt.C), (0.5, pt.H), (0.5, pt.H)]); g = formula('CH4'); result = [atoms(f), str(f.hill), atoms(g), g.mass, str(g.hill)]; check = atoms(f) == S({pt.C: 1, pt.H: 1.0})"),
+    (("C03", "C04"), "neutron scattering of a formula object that was an argument before", "f = FAULT_OBJ.get('water') or formula('H2O@1'); result = [pt.neutron_scattering(f, wavelength=4.75), f.density]; check = f.density == 1"),
+    (("C05",), "x-ray sld of a formula object that was an argument before", "f = FAULT_OBJ.get('silica') or formula('SiO2@2.2'); result = [pt.xray_sld(f, energy=8.0), f.density]; check = f.density == 2.2"),
+    (("C11",), "mixture strings after anything", "f = formula('1g H2O@1 // 3g D2O@1.11'); g = formula('50wt% Co // Ti'); result = [atoms(f), f.density, f.total_mass, atoms(g), g.density]; check = abs(f.total_mass - 4) < 1e-12"),
+    (("C16",), "D2O match of ethanol", "result = [nsf.D2O_match('C2H6O@0.789', wavelength=4.75), nsf.D2O_sld('C2H6O@0.789', 0.3, wavelength=4.75)]"),
+    (("C17",), "composite of water and heavy water", "c = nsf.neutron_composite_sld([formula('H2O@1'), formula('D2O@1.11')], wavelength=[4.0, 5.0]); result = [c(np.array([1.0, 0.0])), c(np.array([0.0, 1.0])), c(np.array([0.0, 1.0]))]"),
+    (("C18",), "a sequence after anything", "s = fasta.Sequence('ok', 'ACDE'); f = formula('aa:ACDE'); result = [atoms(s.formula), s.mass, atoms(f), atoms(formula('dna:ACGT'))]"),
+    (("C20", "C05"), "form factors of tabulated ions after anything", "result = [pt.Fe.ion[3].xray.f0(0.0), cromermann.fxrayatq('O', 0.0, -2), cromermann.fxrayatq('Fe', 0.0, 2), pt.Fe.xray.f0(0.5)]"),
+    (("C14", "C15"), "activation of CoFe after anything", "s = act.Sample('Co30Fe70', 1.0); s.calculate_activation(act.ActivationEnvironment(1e13), rest_times=(0, 1)); result = sorted((str(k.isotope), k.daughter, k.reaction, repr(v)) for k, v in s.activity.items())[:6]"),
+    # ---- valid but unusual argument TYPES and object protocols (round 9): the value is the one for the ordinary type
+    (("C01",), "whole counts beyond 2**53 stay exact", "f = formula('C9007199254740993H4'); result = [str(f.atoms[pt.C]), str(formula('(CH2)9007199254740993').atoms[pt.H])]; check = result == ['9007199254740993', '18014398509481986']"),
+    (("C02", "C19"), "a structure given as a generator", "f = formula((c, a) for c, a in [(1, pt.Ca), (1, pt.C), (3, pt.O)]); g = formula([(1, pt.Ca), (2, iter([(1, pt.C), (3, pt.O)]))]); result = [atoms(f), atoms(g)]; check = atoms(f) == S({pt.Ca: 1, pt.C: 1, pt.O: 3}) and atoms(g) == S({pt.Ca: 1, pt.C: 2, pt.O: 6})"),
+    (("C02", "C19", "C13"), "Fraction and Decimal counts", "from fractions import Fraction; from decimal import Decimal; f = formula([(Fraction(1, 3), pt.C), (1, pt.H)]); g = Fraction(3, 2) * formula('H2O'); "
+     "result = [atoms(f.hill) == atoms(f), str(f.hill.atoms[pt.C]), str(g), atoms(formula(str(g))), str(np.float32(0.5) * formula('H2O'))]; check = result[0] and result[1] == '1/3' and result[2] == '(H2O)1.5' and result[4] == '(H2O)0.5'"),
+    (("C06", "C07", "C08"), "copies of atoms and records", "a = copy.deepcopy(pt.Ni[58]); b = pickle.loads(pickle.dumps(pt.Ni[58])); n = copy.deepcopy(pt.Er.neutron); m = pickle.loads(pickle.dumps(pt.Er.neutron)); k = copy.copy(pt.Er.neutron); "
+     "result = [a is pt.Ni[58], b is pt.Ni[58], a.mass, copy.deepcopy(formula('D2O')).mass, n.scattering_by_wavelength(0.5), m.scattering_by_wavelength(0.5), k.scattering_by_wavelength(0.5)]; "
+     "check = result[0] and result[1] and result[4] == result[5] == result[6] == pt.Er.neutron.scattering_by_wavelength(0.5)"),
+    (("C08",), "array-valued keys are not truncated", "out = []\nfor k in (np.array(2.5), np.array(-1.5)):\n    try:\n        out.append(str(pt.Fe.ion[k]))\n    except Exception as e:\n        out.append('rejected')\ntry:\n    out.append(str(pt.Fe[np.array(56.5)]))\nexcept Exception as e:\n    out.append('rejected')\nresult = out; check = out == ['rejected'] * 3"),
+    (("C09", "C20", "C05"), "numpy and float charges", "result = [pt.Mn.ion[np.int64(2)].xray.f0(0.0), cromermann.fxrayatq('Fe', 0.0, np.int64(2)), pt.Co.ion[2.0].xray.f0(0.0), pt.Co.ion[2].xray.f0(0.0)]; "
+     "check = abs(result[0] - 23) < 0.02 and abs(result[1] - 24) < 0.02 and abs(result[2] - 25) < 0.02 and result[2] == result[3]"),
+    (("C11", "C12"), "0-d arrays as quantities are not written to", "q1 = np.array(1.0); q2 = np.array(3.0); f = pt.mix_by_weight('H2O@1', q1, 'D2O@1.11', q2); g = pt.mix_by_volume('H2O@1', q1, 'D2O@1.11', q2); d = np.array(1.0); h = formula('H2O', density=d); r = h.replace(pt.H, pt.D); "
+     "result = [float(q1), float(q2), f.density, g.density, float(d), float(h.density), float(r.density)]; check = result[:2] == [1.0, 3.0] and result[4] == 1.0 and result[5] == 1.0 and abs(result[6] - formula('D2O').mass / formula('H2O').mass) < 1e-12"),
+    (("C14", "C15"), "integer-typed flux and copied samples", "e1 = act.ActivationEnvironment(fluence=1e16); e2 = act.ActivationEnvironment(fluence=np.int64(10**16)); s1 = act.Sample('AuCo', 1.0); s1.calculate_activation(e1, rest_times=(0, 1)); s2 = act.Sample('AuCo', 1.0); s2.calculate_activation(e2, rest_times=(0, 1)); "
+     "e3 = act.ActivationEnvironment(fluence=1e13, fast_ratio=50); s3 = act.Sample('NaCl', 1.0); s3.calculate_activation(e3, rest_times=(0, 1)); s4 = copy.deepcopy(s3); "
+     "result = [max(abs(s1.activity[k][0] - s2.activity[k][0]) / max(abs(s1.activity[k][0]), 1e-300) for k in s1.activity) < 1e-9, len(s3.activity), len(s4.activity), s3.decay_time(1e-3), s4.decay_time(1e-3)]; check = result[0] and result[1] == result[2] and result[3] == result[4]"),
+    (("C16",), "a compound given as a generator", "result = [nsf.D2O_sld(((c, a) for c, a in [(2, pt.H), (1, pt.O)]), 0.5, density=1.0, wavelength=4.75), nsf.D2O_sld([(2, pt.H), (1, pt.O)], 0.5, density=1.0, wavelength=4.75)]; check = result[0] == result[1]"),
+    (("C17",), "huge weights", "c = nsf.neutron_composite_sld([formula('H2O@1'), formula('D2O@1.11')], wavelength=4.75); result = [c(np.array([1.0, 3.0])), c(np.array([1e290, 3e290]))]; check = all(abs(float(x) - float(y)) <= 1e-9 * abs(float(x)) for x, y in zip(c(np.array([1.0, 3.0])), c(np.array([1e290, 3e290]))))"),
+    (("C18",), "copies of a dna sequence", "s = fasta.Sequence('d', 'ACGT', type='dna'); t = copy.deepcopy(s); u = pickle.loads(pickle.dumps(s)); result = [atoms(s.formula), atoms(t.formula), atoms(u.formula), s.mass, t.mass]; check = result[0] == result[1] == result[2]"),
+    (("C10",), "a private table with an empty name", "core.PRIVATE_TABLES.pop('', None); T = core.PeriodicTable(''); mass.init(T); density.init(T); T.Fe._mass = 10.0; x = pickle.loads(pickle.dumps(T.Fe)); y = copy.deepcopy(T.Fe[56].ion[2]); f = copy.deepcopy(formula('Fe', table=T)); core.PRIVATE_TABLES.pop('', None); result = [x is T.Fe, y is T.Fe[56].ion[2], f.mass]; check = result == [True, True, 10.0]"),
 ]
 
 
@@ -213,25 +277,26 @@ def task_observations(tier, seed, arg):
     tags = set((arg or {}).get("tags") or []) if isinstance(arg, dict) else set()
     obs = [o for o in OBSERVATIONS if not tags or tags & set(o[0])]
     R = Result("each of %d fixed observations gives the same value as the first use of the library in a fresh interpreter, in a warmed-up interpreter "
-               "(twice, in list order) and in a warmed-up interpreter in reverse order" % len(obs), False)
+               "(twice, in list order), in a warmed-up interpreter in reverse order and in an interpreter that made a fixed list of rejected calls first" % len(obs), False)
     codes = [o[2] for o in obs]
     fresh_progs = [PRELUDE + "\nprint('RESULT ' + json.dumps(run(%r)))" % c for c in codes]
     warm = PRELUDE + WARMUP + "\ncodes = %r\nfirst = [run(c) for c in codes]\nsecond = [run(c) for c in codes]\nprint('RESULT ' + json.dumps([first, second]))" % (codes,)
     rev = PRELUDE + WARMUP + "\ncodes = %r\nout = [run(c) for c in reversed(codes)]\nprint('RESULT ' + json.dumps(list(reversed(out))))" % (codes,)
+    flt = PRELUDE + FAULTS + "\ncodes = %r\nout = [run(c) for c in codes]\nprint('RESULT ' + json.dumps(out))" % (codes,)
     with ThreadPoolExecutor(max_workers=min(12, os.cpu_count() or 4)) as pool:
         futs = [pool.submit(_child, tree, p) for p in fresh_progs]
-        fw, fr = pool.submit(_child, tree, warm), pool.submit(_child, tree, rev)
+        fw, fr, fe = pool.submit(_child, tree, warm), pool.submit(_child, tree, rev), pool.submit(_child, tree, flt)
         fresh = [f.result() for f in futs]
-        w, r = fw.result(), fr.result()
-    if isinstance(w, dict) or isinstance(r, dict):
-        raise RuntimeError("warm interpreter failed: %s" % ((w if isinstance(w, dict) else r).get("crash"),))
+        w, r, e = fw.result(), fr.result(), fe.result()
+    if isinstance(w, dict) or isinstance(r, dict) or isinstance(e, dict):
+        raise RuntimeError("warm interpreter failed: %s" % (([x for x in (w, r, e) if isinstance(x, dict)][0]).get("crash"),))
     w1, w2 = w
-    for (tg, name, code), f, a, b, c in zip(obs, fresh, w1, w2, r):
-        R.ok(4, (name,))
+    for (tg, name, code), f, a, b, c, e1 in zip(obs, fresh, w1, w2, r, e):
+        R.ok(5, (name,))
         if "crash" in f:
             R.violation("independence:%s:fresh_crash" % name, "observation %r as the first use of the library: the interpreter died" % name, {"observation": name, "program": code}, f["crash"][-200:])
             continue
-        vals = {"fresh interpreter": f, "warm, first pass": a, "warm, second pass": b, "warm, reverse order": c}
+        vals = {"fresh interpreter": f, "warm, first pass": a, "warm, second pass": b, "warm, reverse order": c, "after rejected calls": e1}
         bad = [k for k, v in vals.items() if "raised" in v or v.get("check") is False]
         if bad:
             R.violation("independence:%s:wrong" % name, "observation %r %s (%s)" % (name, "raises" if any("raised" in vals[k] for k in bad) else "does not have the documented value", ", ".join(bad)),
